@@ -104,7 +104,8 @@ def sums_layer(ctx, conn):
         for md in mids:
             dated += [("convert({}, 'USD', %s)" % md,) * 2, ("value({}, %s)" % md,) * 2, ("convert({}, 'EUR', %s)" % md,) * 2]
         for f, g in [('units({})', 'units({})'), ('cost({})', 'cost({})'), ('value({})', 'value({})'),
-                     ("convert({}, 'USD')", "convert({}, 'USD')"), ('value({}, 2020-06-30)', 'value({}, 2020-06-30)'),
+                     ("convert({}, 'USD')", "convert({}, 'USD')"), ("convert({}, 'EUR')", "convert({}, 'EUR')"),
+                     ('value({}, 2020-06-30)', 'value({}, 2020-06-30)'),
                      ("convert({}, 'EUR', 2020-06-30)", "convert({}, 'EUR', 2020-06-30)")] + dated:
             q = 'SELECT account, %s AS a, sum(%s) AS b FROM #postings%s GROUP BY account' % (f.format('sum(position)'), g.format('position'), w)
             try:
